@@ -28,7 +28,8 @@ type Config struct {
 	Verbose          int
 	StopOnViol       bool
 	Known            map[string]bool // known-finding ids
-	AllocBound       int             // bound for symbolic make sizes (elements)
+	AllocBound       int             // explored bound for symbolic make sizes (elements)
+	AllocLimit       int             // sizes above this are reported as allocation out of proportion
 	Thorough         bool
 	Deadline         time.Time
 	OKSampleMax      int
@@ -1696,10 +1697,26 @@ func (e *Exec) makeSlice(st *State, fr *Frame, x *ssa.MakeSlice, res *[]Outcome)
 			panic(unsupported(fmt.Sprintf("make with concrete size %d too large to model", n)))
 		}
 	} else {
-		// symbolic size: allocate the bound; sizes above the bound are an allocation-assertion failure
-		n = e.cfg.AllocBound
-		if !e.require(st, fr, c.BvBin(OpSle, cp, c.BVConst(uint64(n), 64)), &PanicInfo{Kind: "alloc", Msg: fmt.Sprintf("allocation of more than %d elements", n), in: x}, res) {
+		// symbolic size: sizes above AllocLimit are an allocation-assertion failure (memory out of
+		// proportion); sizes up to AllocBound are explored (that many cells are allocated); sizes in
+		// between are outside the explored bound (stated in the evidence).
+		limit := e.cfg.AllocLimit
+		if limit < e.cfg.AllocBound {
+			limit = e.cfg.AllocBound
+		}
+		if !e.require(st, fr, c.BvBin(OpSle, cp, c.BVConst(uint64(limit), 64)), &PanicInfo{Kind: "alloc", Msg: fmt.Sprintf("allocation of more than %d elements", limit), in: x}, res) {
 			return false
+		}
+		n = e.cfg.AllocBound
+		if limit > n {
+			within := c.BvBin(OpSle, cp, c.BVConst(uint64(n), 64))
+			if e.check(st, within) == "unsat" {
+				return false
+			}
+			if e.check(st, c.Not(within)) != "unsat" {
+				e.note(fmt.Sprintf("allocation sizes above %d elements are not explored", n))
+			}
+			st.assume(within)
 		}
 	}
 	at := types.NewArray(elem, int64(n))
@@ -2101,4 +2118,13 @@ func commonBind(a, b map[*Term]*Term) map[*Term]*Term {
 		}
 	}
 	return r
+}
+
+func (e *Exec) note(msg string) {
+	for _, n := range e.notes {
+		if n == msg {
+			return
+		}
+	}
+	e.notes = append(e.notes, msg)
 }
